@@ -14,11 +14,8 @@ def run(tier, seed):
     agg, samples = summarise(res)
     ncand, nconf, nunconf, details = sc.process(sr, res, rep, ("disagree",))
     extra_results = []
-    try:
-        import prim_layer
-        extra_results = prim_layer.run_c01(sr, rep, tier)
-    except ImportError:
-        pass
+    import prim_layer
+    extra_results = prim_layer.run_c01(sr, rep, tier)
     no_ref = sorted(u["name"] for u in sr.units if u["kind"] == "nuclide" and not u["has_ref"])
     cov = {"candidates": ncand, "confirmed": nconf, "unconfirmed": nunconf, "units_without_reference": no_ref, "details": details[:20], "layers": ["scheme"] + [x["layer"] for x in extra_results],
            "extra_layers": extra_results}
